@@ -118,6 +118,47 @@ fn int_leg(g: &Grammar) -> Acc {
     acc
 }
 
+/// index steps: every position 0..4096, every 2^k and 10^k with neighbours up to 2^130, zero-padded
+/// spellings; in range they denote that position, beyond the platform's range nothing
+fn index_leg(g: &Grammar) -> Acc {
+    let mut vals: Vec<u128> = (0..=4096u128).collect();
+    for k in 0..=127u32 {
+        let p = 1u128 << k;
+        vals.extend([p - 1, p, p + 1]);
+    }
+    let mut p = 1u128;
+    for _ in 0..38 {
+        vals.extend([p - 1, p, p + 1]);
+        p *= 10;
+    }
+    vals.extend([u64::MAX as u128 + 2, (u64::MAX as u128) * 2, (u64::MAX as u128) * 2 + 1, i128::MAX as u128, i128::MAX as u128 + 1, u128::MAX]);
+    vals.sort();
+    vals.dedup();
+    let mut texts: Vec<String> = Vec::new();
+    for v in &vals {
+        texts.push(format!("x.{v}"));
+        texts.push(format!("x.00{v}"));
+        texts.push(format!("[x].{v}.a"));
+        texts.push(format!("x.a.{v} == i1"));
+    }
+    for big in ["340282366920938463463374607431768211456", "999999999999999999999999999999999999999999", "18446744073709551616000"] {
+        texts.push(format!("x.{big}"));
+        texts.push(format!("x.1.{big}"));
+    }
+    texts
+        .par_chunks(256)
+        .map(|chunk| {
+            let mut acc = Acc::new();
+            for t in chunk {
+                record(&mut acc, "C08", t, "Expr::parse", compare_expr(g, t), &C08_KINDS);
+                acc.count("literals", 1);
+                acc.count("index_literals", 1);
+            }
+            acc
+        })
+        .reduce(Acc::new, |a, b| a.merge(b))
+}
+
 fn float_leg(g: &Grammar, tier: Tier) -> Acc {
     let mant_step = tier.pick(1usize, 1usize);
     let mut lits: Vec<String> = Vec::new();
@@ -538,6 +579,7 @@ pub fn run(tier: Tier) -> i32 {
     let mut rep = Report::new("C08", tier);
     let g = Grammar::new();
     rep.absorb(int_leg(&g));
+    rep.absorb(index_leg(&g));
     rep.absorb(float_leg(&g, tier));
     rep.absorb(decimal_leg(&g));
     rep.absorb(string_scalar_leg(&g));
